@@ -1,6 +1,6 @@
 #!/bin/bash
 # setup_cmd: offline release build of the harness (with the repository as path dependency, hooks on),
-# the LD_PRELOAD fault shim, and the reference-model self-check.
+# the LD_PRELOAD fault shim, the instrumented second build for C14 (d), and the reference-model self-check.
 set -eu
 cd "$(dirname "$0")"
 export VERIF_DIR="$PWD"
@@ -11,3 +11,10 @@ mkdir -p scratch evidence replays
 (cd harness && cargo build --release --offline 2>&1 | tail -3)
 if [ -f faultshim/shim.c ]; then gcc -O1 -shared -fPIC -o faultshim/faultshim.so faultshim/shim.c -ldl; fi
 "$CARGO_TARGET_DIR/release/fqv" selfcheck
+# instrumented build (nightly toolchain); a failure here is reported but does not fail the setup: C14 then runs
+# without sub-exploration (d) and says so
+if (cd harness-fine && CARGO_TARGET_DIR="$VERIF_DIR/target-fine" cargo +nightly build --release --offline 2>&1 | tail -2); then
+  "$VERIF_DIR/target-fine/release/fqv-fine" selftest || echo "NOTE: fqv-fine selftest failed"
+else
+  echo "NOTE: instrumented build (harness-fine) failed"
+fi
